@@ -1,5 +1,6 @@
 import MdIt.BlockRules
 import MdIt.BlockQuote
+import MdIt.BlockList
 import MdIt.Drv.Token
 import MdIt.Generated.Tables
 /-! Driver: `miniblock <code><fence><hr><heading> <maxNesting> <src>` — block tokens of the modelled
@@ -25,6 +26,17 @@ def qLine (toks : List String) : String :=
     let b := bits.toList.map (· == '1')
     let cfg : MiniCfg := { code := b.getD 0 false, fence := b.getD 1 false, hr := b.getD 2 false, heading := b.getD 3 false }
     match qParse cfg Gen.pyWhitespace mn.toInt! (decChars src) with
+    | .ok ts => "ok " ++ " ".intercalate (encToks ts)
+    | .error e => "e:" ++ e.tag
+  | _ => "bad-request"
+
+/-- `lblock <code><fence><hr><heading> <maxNesting> <src>` — block quotes and lists in the chain -/
+def lLine (toks : List String) : String :=
+  match toks with
+  | [bits, mn, src] =>
+    let b := bits.toList.map (· == '1')
+    let cfg : MiniCfg := { code := b.getD 0 false, fence := b.getD 1 false, hr := b.getD 2 false, heading := b.getD 3 false }
+    match lParse cfg Gen.pyWhitespace mn.toInt! (decChars src) with
     | .ok ts => "ok " ++ " ".intercalate (encToks ts)
     | .error e => "e:" ++ e.tag
   | _ => "bad-request"
